@@ -34,7 +34,8 @@ def cfg : Cfg :=
     childrenPopSelf := Gen.C03.childrenPopSelf
     probeLenient := Gen.C03.runningProbe == "lenient"
     asDictSkipCatch := Gen.C03.asDictSkipCatch
-    asDictSkipRule := Gen.C03.asDictSkipRule }
+    asDictSkipRule := Gen.C03.asDictSkipRule
+    parentRootGuard := Gen.C03.parentRootStop == "guard; return None" }
 
 /-- the public names of psutil.Process and the as_dict attribute names, as extracted -/
 def publicMethods : List String := Gen.C03.publicMethods
@@ -45,5 +46,7 @@ def runningProbe : String := Gen.C03.runningProbe
 def asDictLs : String := Gen.C03.asDictLs
 def oneshotShape : String := Gen.C03.oneshotShape
 def tryScopes : List (String × List String) := Gen.C03.tryScopes
+/-- the statements of the lowest-PID stop of parent() ("guard; return None" | "return None" | the statements as text) -/
+def parentRootStop : String := Gen.C03.parentRootStop
 
 end Psutil.C03
